@@ -10,5 +10,7 @@ INVARIANTS
   C04_LenAgreesDec
   C04_ShapeRoundTrip
   C04_NextHopLen
+  C04_ExtFlag
+  C04_RawAccepted
   C04_Fixpoint
   C04_Equal
